@@ -409,7 +409,7 @@ pub fn run(tier: Tier, seed: u64) -> i32 {
     let q = tier == Tier::Quick;
     let p0 = Params { max_dev: 0, seeds: vec![seed], time_limit: Duration::from_secs(if q { 25 } else { 600 }), ..Default::default() };
     rep.add("byte strings x write partitions (incl. empty writes, flushes) x sized/unsized/declared+-1 x ending x which half is remote; connection cut at every frame", explore("C18", grid(tier), p0, &known));
-    let p = Params { max_dev: if q { 1 } else { 2 }, seeds: vec![seed], time_limit: Duration::from_secs(if q { 20 } else { 600 }), ..Default::default() };
+    let p = Params { max_dev: 2, seeds: vec![seed], time_limit: Duration::from_secs(if q { 20 } else { 600 }), ..Default::default() };
     rep.add("core transfers under schedule exploration", explore("C18", core(tier), p, &known));
     rep.rule = "a case = (total length around chunk_size / receive_buffer, composition into <= 3/4 writes incl. empty ones with a flush, sized with declared size L-1/L/L+1 or unsized, shutdown / flush+drop / drop, read buffer size, which half travels, cut after k frames, schedule deviations); distinct = distinct (bytes read, reader ending, writer results); non-trivial = bytes were read (or the stream is empty)".into();
     rep.assumptions = vec!["'accepted' bytes are those poll_write returned Ok(n) for; a cut makes both directions report end-of-stream".into()];
